@@ -488,6 +488,7 @@ pub fn run(ctx: &Ctx) -> Report {
     let splits = ctx.tier.pick(24, 400);
     let corpus: Vec<CorpusSplit> = super::c02::corpus_files().into_iter().map(|p| CorpusSplit { path: p, splits }).collect();
     rep.run_enum("corpus", &corpus, check_corpus);
+    rep.run_enum("default-objects", &[0u8], super::common::check_default_objects);
     // inputs longer than 2^31 and 2^32 bytes (one at a time: 2.1 and 4.3 GB of memory)
     let huge = ctx.tier.pick(
         &[HugeInput { gap: (1usize << 31) + 16, gaps: 1, crlf: false }, HugeInput { gap: (1usize << 31) + 16, gaps: 2, crlf: true }][..],
@@ -502,6 +503,9 @@ pub fn run(ctx: &Ctx) -> Report {
 }
 
 pub fn replay(stage: &str, case: &Value) -> Check {
+    if stage == "default-objects" {
+        return super::common::check_default_objects(&0, &mut Stats::new());
+    }
     let mut st = Stats::new();
     let de = |e: serde_json::Error| Fail::new("harness-replay", e.to_string());
     match stage {
